@@ -197,8 +197,14 @@ func main() {
 		ev["inconclusive_shards"] = missing
 	}
 	b, _ := json.MarshalIndent(ev, "", " ")
-	os.MkdirAll(filepath.Join(*verif, "evidence"), 0o755)
-	if err := os.WriteFile(filepath.Join(*verif, "evidence", *id+".json"), append(b, '\n'), 0o644); err != nil {
+	// runs against a scratch copy of the repository (seeded changes, old commits) must not overwrite the
+	// evidence of the tree under test
+	evDir := filepath.Join(*verif, "evidence")
+	if r := os.Getenv("VERIF_REPO"); r != "" && r != "/repo" {
+		evDir = filepath.Join(*verif, ".work", "evidence-scratch")
+	}
+	os.MkdirAll(evDir, 0o755)
+	if err := os.WriteFile(filepath.Join(evDir, *id+".json"), append(b, '\n'), 0o644); err != nil {
 		fmt.Fprintln(os.Stderr, "cannot write evidence:", err)
 		os.Exit(2)
 	}
